@@ -92,6 +92,22 @@ fn create_cstore_response(
     ])
 }
 
+/// Obtain the name of the file in which to store an instance,
+/// if the given SOP instance UID can serve as a file name.
+///
+/// The UID is supplied by the peer:
+/// anything other than a UID (digits and dots, up to 64 characters)
+/// is refused, so that the file always ends up
+/// directly in the output directory.
+fn instance_file_name(sop_instance_uid: &str) -> Option<String> {
+    let uid = sop_instance_uid.trim_end_matches(['\0', ' ']);
+    let is_uid = !uid.is_empty()
+        && uid.len() <= 64
+        && uid.bytes().all(|b| b.is_ascii_digit() || b == b'.')
+        && uid.bytes().any(|b| b.is_ascii_digit());
+    is_uid.then(|| format!("{uid}.dcm"))
+}
+
 fn create_cecho_response(message_id: u16) -> InMemDicomObject<StandardDataDictionary> {
     InMemDicomObject::command_from_element_iter([
         DataElement::new(tags::COMMAND_FIELD, VR::US, dicom_value!(U16, [0x8030])),
